@@ -72,7 +72,7 @@ def g_def(r: random.Random, kind: t.Optional[str] = None) -> t.Tuple[str, dict]:
             ordering=gv.g_oid(r) if r.random() < 0.3 else None,
             substrings=gv.g_oid(r) if r.random() < 0.3 else None,
             syntax=syn,
-            syntax_length=(r.choice([0, 1, 64, 32768, 2**31 - 1, 2**31]) if syn and r.random() < 0.4 else None),
+            syntax_length=(r.choice([0, 1, 64, 32768, 2**31 - 1, 2**31, 2**32, 10**10 - 1, 10**10, 2**40, 2**64, 10**30, 10**100]) if syn and r.random() < 0.4 else None),
             single_value=r.random() < 0.4,
             collective=r.random() < 0.2,
             no_user_modification=r.random() < 0.3,
